@@ -219,11 +219,14 @@ package wal
 
 // snapshot markers of a WAL directory: the markers are filtered against the hard state only AFTER the whole log was
 // scanned (the decoder reported the end: err != nil), i.e. against the newest hard state - a marker saved before the
-// hard state that commits it is kept (partial contract: only this loop-entry condition of the filter loop)
+// hard state that commits it is kept; during the scan EVERY decoded marker is collected (their number equals the
+// number of marker records unmarshalled) (partial contract: only these loop conditions)
 //@ property C05 C03
 //@ func ValidSnapshotEntries(walDir string) ([]walpb.Snapshot, error)
-//@   opt only=INV-ENTRY
+//@   opt only=INV-ENTRY,INV-PRES
 //@   opt autoloops
 //@   modifies *
+//@ loop 1
+//@   invariant len(snaps) == ghost(unmarshals, nil) - old(ghost(unmarshals, nil))
 //@ loop 2
 //@   invariant err != nil
